@@ -98,9 +98,9 @@ Definition run_ok (p : prog) : Prop :=
       (forall x, In x (headdecls p) -> In x (dnames fr')) /\
       (forall y, In (UPend y) (fund fr') -> In (UPend y) (fund fr) \/ In y (allnames p)) /\
       map (final (env_of ((fr, pr) :: rest))) (alog a')
-        = rev (fst (resolve (env_of ((fr, pr) :: rest)) (func_of ((fr, pr) :: rest)) (fid fr) false (anext a) p))
+        = rev (fst (resolve_m (env_of ((fr, pr) :: rest)) (func_of ((fr, pr) :: rest)) (fid fr) false (anext a) p))
           ++ map (final (env_of ((fr, pr) :: rest))) (alog a) /\
-      anext a' = snd (resolve (env_of ((fr, pr) :: rest)) (func_of ((fr, pr) :: rest)) (fid fr) false (anext a) p).
+      anext a' = snd (resolve_m (env_of ((fr, pr) :: rest)) (func_of ((fr, pr) :: rest)) (fid fr) false (anext a) p).
 
 Lemma grow_shape L V z z' : grow L V z z' -> shape z' = shape z.
 Proof. intros [H _]. exact H. Qed.
@@ -134,7 +134,7 @@ Proof.
   split; [exact P1|]. split; [exact P2|]. split; [exact P3|]. split.
   { intros y Hy. cbn [allnames]. destruct (P4 y Hy) as [H|H]; [|right; right; exact H].
     destruct (E7 _ H) as [H'|H']; [left; exact H'|]. injection H' as ->. right. left. reflexivity. }
-  cbn [resolve]. destruct (resolve (env_of ((fr, pr) :: rest)) (func_of ((fr, pr) :: rest)) (fid fr) false (anext a) k) as [r n1].
+  cbn [resolve_m]. destruct (resolve_m (env_of ((fr, pr) :: rest)) (func_of ((fr, pr) :: rest)) (fid fr) false (anext a) k) as [r n1].
   cbn [fst snd] in *. split; [|exact N].
   rewrite F, E4. cbn [map rev]. rewrite E6, <- app_assoc. reflexivity.
 Qed.
@@ -169,7 +169,7 @@ Proof.
   { cbn [lexdecls is_lex app]. intros y [<-|Hy]; [apply Gi; rewrite E3; apply in_app_last; right; reflexivity|apply P1; exact Hy]. }
   split; [exact P2|]. split; [cbn [headdecls app]; exact P3|]. split.
   { intros y Hy. cbn [allnames]. destruct (P4 y Hy) as [H|H]; [left; apply E4; exact H|right; right; exact H]. }
-  cbn [resolve is_var]. destruct (resolve (env_of ((fr, pr) :: rest)) (func_of ((fr, pr) :: rest)) (fid fr) false (anext a) k) as [r n1].
+  cbn [resolve_m is_var]. destruct (resolve_m (env_of ((fr, pr) :: rest)) (func_of ((fr, pr) :: rest)) (fid fr) false (anext a) k) as [r n1].
   cbn [fst snd] in *. split; [|exact N].
   rewrite F, E6. cbn [map rev]. rewrite <- app_assoc. reflexivity.
 Qed.
@@ -209,7 +209,7 @@ Proof.
   { intros y [<-|Hy]; [apply Gi; rewrite E3; apply in_app_last; right; reflexivity|apply P3; exact Hy]. }
   split.
   { intros y Hy. cbn [allnames]. destruct (P4 y Hy) as [H|H]; [left; apply E4; exact H|right; right; exact H]. }
-  cbn [resolve is_var]. destruct (resolve (env_of ((fr, pr) :: rest)) (func_of ((fr, pr) :: rest)) (fid fr) false (anext a) k) as [r n1].
+  cbn [resolve_m is_var]. destruct (resolve_m (env_of ((fr, pr) :: rest)) (func_of ((fr, pr) :: rest)) (fid fr) false (anext a) k) as [r n1].
   cbn [fst snd] in *. split; [|exact N].
   rewrite F, E6. cbn [map rev]. rewrite <- app_assoc. reflexivity.
 Qed.
@@ -248,8 +248,8 @@ Proof.
   { rewrite Evar. intros y [<-|Hy]; [apply (func_dnames_mono _ _ _ _ G); exact Px|apply P2; exact Hy]. }
   split; [rewrite Ehead; intros y []|]. split.
   { intros y Hy. cbn [allnames]. destruct (P4 y Hy) as [H|H]; [left; apply Pu; exact H|right; right; exact H]. }
-  cbn [resolve]. replace (is_var d) with true by (destruct Hd as [-> | ->]; reflexivity).
-  destruct (resolve (env_of ((fr, pr) :: rest)) (func_of ((fr, pr) :: rest)) (fid fr) false (anext a) k) as [r n1].
+  cbn [resolve_m]. replace (is_var d) with true by (destruct Hd as [-> | ->]; reflexivity).
+  destruct (resolve_m (env_of ((fr, pr) :: rest)) (func_of ((fr, pr) :: rest)) (fid fr) false (anext a) k) as [r n1].
   cbn [fst snd] in *. split; [|exact N].
   rewrite F, F1. cbn [map rev]. rewrite <- app_assoc. reflexivity.
 Qed.
